@@ -36,11 +36,14 @@ pub fn gen_orig_map(rng: &mut Rng, program: &str, shape: &MapShape) -> Map {
     let mut m = Map::default();
     m.file = Some("out.js".into());
     m.source_root = shape.source_root.clone();
+    let unicode = rng.chance(1, 3);
+    let dup = rng.chance(1, 6);
     for i in 0..shape.sources {
         m.sources.push(match i {
-            0 => "orig/main.ts".to_string(),
-            1 => "util.ts".to_string(),
-            2 => "../shared/lib.ts".to_string(),
+            0 => if unicode { "orig/a\u{f1}adir.ts".to_string() } else { "orig/main.ts".to_string() },
+            // real maps repeat entries (one bundle input listed twice)
+            1 => if dup { m.sources[0].clone() } else { "util.ts".to_string() },
+            2 => if unicode { "../\u{5171}\u{4eab}/lib.ts".to_string() } else { "../shared/lib.ts".to_string() },
             _ => format!("gen{}.ts", i),
         });
     }
@@ -53,6 +56,12 @@ pub fn gen_orig_map(rng: &mut Rng, program: &str, shape: &MapShape) -> Map {
     if shape.names {
         for n in ["alpha", "beta", "gamma", "delta"] {
             m.names.push(n.to_string());
+        }
+        if unicode {
+            m.names[1] = "a\u{f1}adir\u{1F600}".to_string();
+        }
+        if dup {
+            m.names[2] = m.names[0].clone();
         }
     }
     let line_p = if shape.sparse { 3 } else { 9 };
